@@ -83,7 +83,7 @@ def hexs(s):
 
 # ------------------------------------------------------------------ scenarios
 KINDS_STOCK = ["denied", "denied", "denied-ext", "denied-auth", "need-auth", "badurl", "connfail", "toobig", "httpver", "zero",
-               "oic", "badresp", "mgr", "mgrpw", "loop", "badcl"]
+               "oic", "badresp", "mgr", "mgrpw", "badcl"]
 KINDS_PROBE = ["denied", "denied-ext", "denied-auth", "custom", "custom", "redir", "redir", "redir-auth", "badurl", "connfail",
                "toobig", "zero", "badresp", "need-auth"]
 EXPECT = {"denied": ("ERR_ACCESS_DENIED", 403), "denied-ext": ("ERR_ACCESS_DENIED", 403), "denied-auth": ("ERR_ACCESS_DENIED", 403),
@@ -405,13 +405,13 @@ def run(res, tier):
                 "the URL path, a header value, an extension method, the Basic user name, the URL scheme or the host name, driven at "
                 "two squid instances (stock templates; probe templates with all macro letters + deny_info page + deny_info URL) so as "
                 "to hit access denied, proxy auth required, invalid request / URL, connect failure, DNS failure, too big, unsupported "
-                "version, zero-size reply, invalid response, only-if-cached miss, cache manager errors, forwarding loop; every scenario "
+                "version, zero-size reply, invalid response, only-if-cached miss, cache manager errors; every scenario "
                 "is non-trivial (each carries at least two markers)")
     try:
         std.run_lab(res, PID, tier, area="pagelog", gens=["bytemaps", "errmacros", "logquote"], gen_scenarios=gen_scenarios,
                     run_impl=run_impl, to_case=to_case, oracle=oracle,
                     corr_name="PagelogModel (build_body / build_deny_info_url) vs the running squid",
-                    n_quick=150, n_thorough=2500, seed_salt=33, model_blind=model_blind,
+                    n_quick=120, n_thorough=2500, seed_salt=33, model_blind=model_blind,
                     kind_fn=lambda s, o: s["inst"] + ":" + s["kind"] + ":" + o.split(" ")[0],
                     nontrivial_fn=lambda s, o: True)
     finally:
